@@ -241,6 +241,12 @@ func collectStats(res *CaseResult, r *Run) {
 	}
 	if r.master != nil {
 		for _, p := range r.master.packets {
+			if len(p.payload) >= 1<<24-1 {
+				st.probe("event-split-over-several-mysql-packets")
+				break
+			}
+		}
+		for _, p := range r.master.packets {
 			if len(p.payload) > 4096 {
 				st.probe("packet-larger-than-driver-buffer")
 				break
@@ -258,6 +264,7 @@ func RunCase(t *testing.T, spec CaseSpec) *CaseResult {
 	res.Scenario = sc
 	if spec.Prop == "C08" {
 		sc.Scribble = false
+		sc.LateScribble = true
 	}
 	r := Execute(t, sc, tape)
 	res.Runs = append(res.Runs, r)
